@@ -131,7 +131,7 @@ func newEnv(fl *drv.Flags) *env {
 	e.cfg.minMult = fl.CfgInt("minmult", 2)
 	e.cfg.minDep = fl.CfgInt("mindep", 2)
 	e.cfg.wait = fl.CfgInt("wait", 2)
-	accts := map[string]string{modSigner: "1000000" + modDenom}
+	accts := map[string]string{modSigner: "1000000" + modDenom + ",1000btc"}
 	for _, u := range e.users {
 		accts[u] = fmt.Sprintf("%d%s", e.cfg.init, denom)
 	}
@@ -365,12 +365,10 @@ func (e *env) project(ctx sdk.Context) any {
 		rec := chain.M{
 			"deposit": coinsAmt(b.Deposit), "available": b.Available, "disabledAt": e.ticksOf(b.DisabledTime, &inexact),
 			"owner": e.nameOf(b.Owner), "qos": int64(b.QoS),
-			"price": int64(0), "tStart": int64(0), "tEnd": int64(0), "tDisc": int64(4), "vVol": int64(0), "vDisc": int64(4),
+			"price": int64(0), "pdenom": denom, "tStart": int64(0), "tEnd": int64(0), "tDisc": int64(4), "vVol": int64(0), "vDisc": int64(4),
 		}
 		if len(pr.Price) == 1 {
-			if pr.Price[0].Denom != denom {
-				inexact++
-			}
+			rec["pdenom"] = pr.Price[0].Denom
 			rec["price"] = sm(pr.Price[0].Amount)
 		} else {
 			inexact++
@@ -572,7 +570,7 @@ func (e *env) project(ctx sdk.Context) any {
 func svcEvent(name, who string) chain.M {
 	return chain.M{"name": name, "who": who, "svc": "", "prov": "", "provs": []any{}, "ctx": "", "req": "",
 		"amt": int64(0), "price": int64(0), "tStart": int64(0), "tEnd": int64(0), "tDisc": int64(4),
-		"vVol": int64(0), "vDisc": int64(4), "setp": false, "qos": int64(0), "timeout": int64(0),
+		"vVol": int64(0), "vDisc": int64(4), "setp": false, "pdenom": denom, "qos": int64(0), "timeout": int64(0),
 		"repeated": false, "freq": int64(0), "total": int64(0), "thr": int64(0), "paused0": false,
 		"okres": true, "to": "", "dt": int64(1), "rank": int64(0),
 		"ok": true, "panic": false, "halt": false, "cbs": []any{}, "scbs": []any{}}
@@ -598,6 +596,9 @@ func norm(ev chain.M) chain.M {
 	o := svcEvent(chain.Str(ev, "name"), chain.Str(ev, "who"))
 	for _, k := range []string{"svc", "prov", "ctx", "req", "to"} {
 		o[k] = chain.Str(ev, k)
+	}
+	if d := chain.Str(ev, "pdenom"); d != "" {
+		o["pdenom"] = d
 	}
 	for _, k := range []string{"amt", "price", "tStart", "tEnd", "vVol", "qos", "timeout", "freq", "total", "thr", "rank"} {
 		o[k] = chain.Num(ev, k)
@@ -640,7 +641,7 @@ func discStr(n int64) string {
 }
 
 func (e *env) pricing(ev chain.M) string {
-	s := fmt.Sprintf(`{"price":"%d%s"`, chain.Num(ev, "price"), denom)
+	s := fmt.Sprintf(`{"price":"%d%s"`, chain.Num(ev, "price"), chain.Str(ev, "pdenom"))
 	if d := chain.Num(ev, "tDisc"); d != 4 {
 		st := e.t0.Add(time.Duration(chain.Num(ev, "tStart")) * tick).UTC().Format(time.RFC3339)
 		en := e.t0.Add(time.Duration(chain.Num(ev, "tEnd")) * tick).UTC().Format(time.RFC3339)
